@@ -75,6 +75,65 @@ impl Actor for TA {
     }
 }
 
+/// The same test actor in the shape the thread-local spawner wants (`Default`, everything in the
+/// arguments): `thread_local/inner.rs` has its own copy of the registration code.
+#[derive(Default)]
+struct TLA;
+
+struct TlArgs {
+    fail: bool,
+    slot: Arc<Mutex<Option<ActorCell>>>,
+    hold: Arc<AtomicBool>,
+    gate: Arc<tokio::sync::Notify>,
+    in_post: Arc<AtomicBool>,
+}
+
+struct TlState {
+    hold: Arc<AtomicBool>,
+    gate: Arc<tokio::sync::Notify>,
+    in_post: Arc<AtomicBool>,
+}
+
+impl Actor for TLA {
+    type Msg = ();
+    type State = TlState;
+    type Arguments = TlArgs;
+
+    async fn pre_start(&self, myself: ActorRef<()>, a: TlArgs) -> Result<TlState, ActorProcessingErr> {
+        *a.slot.lock().unwrap() = Some(myself.get_cell());
+        if a.fail {
+            Err("refused".into())
+        } else {
+            Ok(TlState { hold: a.hold, gate: a.gate, in_post: a.in_post })
+        }
+    }
+
+    async fn post_stop(&self, _: ActorRef<()>, s: &mut TlState) -> Result<(), ActorProcessingErr> {
+        if s.hold.load(Ordering::SeqCst) {
+            s.in_post.store(true, Ordering::SeqCst);
+            s.gate.notified().await;
+        }
+        Ok(())
+    }
+
+    async fn handle_supervisor_evt(&self, _: ActorRef<()>, _: SupervisionEvent, _: &mut TlState) -> Result<(), ActorProcessingErr> {
+        Ok(())
+    }
+}
+
+fn tl_spawner() -> ractor::thread_local::ThreadLocalActorSpawner {
+    static S: std::sync::OnceLock<ractor::thread_local::ThreadLocalActorSpawner> = std::sync::OnceLock::new();
+    S.get_or_init(ractor::thread_local::ThreadLocalActorSpawner::new).clone()
+}
+
+/// Thread-local actors live on another OS thread with a real clock: wait (real time) until `p`.
+fn settle(p: impl Fn() -> bool) {
+    let t0 = std::time::Instant::now();
+    while !p() && t0.elapsed() < Duration::from_secs(5) {
+        std::thread::sleep(Duration::from_micros(50));
+    }
+}
+
 #[derive(Clone)]
 struct Rec {
     cell: ActorCell,
@@ -82,6 +141,8 @@ struct Rec {
     remote: bool,
     hold: Arc<AtomicBool>,
     gate: Arc<tokio::sync::Notify>,
+    /// thread-local actor: set when it sits in `post_stop`
+    tl: Option<Arc<AtomicBool>>,
 }
 
 /// What the harness knows of the current case: actor index -> real cell.
@@ -93,6 +154,8 @@ struct World {
     cluster: bool,
     /// cluster build: an actor subscribed with `pid_registry::monitor`, and what it was told
     pidmon: Option<(ActorCell, PidLog)>,
+    /// a supervisor outside the model for the `linked` spawn flavour (never exits during a case)
+    hidden_sup: Option<ActorCell>,
 }
 
 impl World {
@@ -206,36 +269,108 @@ async fn exec(w: &mut World, log: &mut Log, st: &mut Stats, line: &str) {
             }
             quiesce().await;
             quiesce().await;
+            for r in w.recs.values().filter(|r| r.tl.is_some()) {
+                let c = r.cell.clone();
+                settle(move || c.get_status() == ActorStatus::Stopped);
+            }
             if let Some((c, _)) = w.pidmon.take() {
                 c.kill();
                 quiesce().await;
             }
+            if let Some(c) = w.hidden_sup.take() {
+                c.kill();
+                quiesce().await;
+            }
             let cluster = line.contains("pid=1");
-            *w = World { recs: BTreeMap::new(), cluster, pidmon: None };
+            *w = World { recs: BTreeMap::new(), cluster, pidmon: None, hidden_sup: None };
+            // created before the pid listener subscribes, so that it stays invisible to it
+            let ta = TA {
+                fail: false,
+                slot: Arc::new(Mutex::new(None)),
+                hold: Arc::new(AtomicBool::new(false)),
+                gate: Arc::new(tokio::sync::Notify::new()),
+            };
+            if let Ok((a, _)) = Actor::spawn(None, ta, ()).await {
+                w.hidden_sup = Some(a.get_cell());
+            }
+            quiesce().await;
             if line.contains("ev=1") {
                 w.pidmon = spawn_pidmon().await;
             }
             st.bump("cases");
             "ok".into()
         }
-        ["spawn", k, n, how] => match (k.parse::<u64>(), opt_name(n)) {
+        ["spawn", k, n, how, ..] => match (k.parse::<u64>(), opt_name(n)) {
             (Ok(k), Some(n)) if !w.recs.contains_key(&k) => {
+                let flavour = t.get(4).copied().unwrap_or("plain");
                 let slot = Arc::new(Mutex::new(None));
                 let hold = Arc::new(AtomicBool::new(false));
                 let gate = Arc::new(tokio::sync::Notify::new());
-                let ta = TA { fail: *how == "fail", slot: slot.clone(), hold: hold.clone(), gate: gate.clone() };
-                let r = Actor::spawn(n.map(nm), ta, ()).await;
+                let fail = *how == "fail";
+                let ta = TA { fail, slot: slot.clone(), hold: hold.clone(), gate: gate.clone() };
+                let mut tl: Option<Arc<AtomicBool>> = None;
+                // a live local actor to link to (the `linked` flavours)
+                let sup = w.hidden_sup.clone();
+                let classify = |e: &ractor::SpawnErr| match e {
+                    ractor::SpawnErr::ActorAlreadyRegistered(_) => "dup",
+                    ractor::SpawnErr::StartupFailed(_) => "fail",
+                    _ => "err",
+                };
+                let ans: &str = match (flavour, sup) {
+                    ("instant", _) => match ractor::ActorRuntime::<TA>::spawn_instant(n.map(nm), ta, ()) {
+                        Err(e) => classify(&e),
+                        Ok((_, h)) => match h.await {
+                            Ok(Ok(_)) => "ok",
+                            Ok(Err(e)) => classify(&e),
+                            Err(_) => "err",
+                        },
+                    },
+                    ("linked", Some(sup)) => match Actor::spawn_linked(n.map(nm), ta, (), sup).await {
+                        Ok(_) => "ok",
+                        Err(e) => classify(&e),
+                    },
+                    ("tl", _) | ("tlinstant", _) => {
+                        use ractor::thread_local::ThreadLocalActor;
+                        let in_post = Arc::new(AtomicBool::new(false));
+                        tl = Some(in_post.clone());
+                        let args = TlArgs { fail, slot: slot.clone(), hold: hold.clone(), gate: gate.clone(), in_post };
+                        let r = if flavour == "tl" {
+                            <TLA as ThreadLocalActor>::spawn(n.map(nm), args, tl_spawner()).await.map(|_| ())
+                        } else {
+                            match <TLA as ThreadLocalActor>::spawn_instant(n.map(nm), args, tl_spawner()) {
+                                Err(e) => Err(e),
+                                Ok((_, h)) => match h.await {
+                                    Ok(Ok(_)) => Ok(()),
+                                    Ok(Err(e)) => Err(e),
+                                    Err(_) => Err(ractor::SpawnErr::ActorAlreadyStarted),
+                                },
+                            }
+                        };
+                        // the other thread runs on its own: wait until the spawn has settled
+                        let sl = slot.clone();
+                        match &r {
+                            Ok(_) => settle(|| sl.lock().unwrap().as_ref().map(|c: &ActorCell| c.get_status() == ActorStatus::Running).unwrap_or(false)),
+                            Err(ractor::SpawnErr::StartupFailed(_)) => {
+                                settle(|| sl.lock().unwrap().as_ref().map(|c: &ActorCell| c.get_status() == ActorStatus::Stopped).unwrap_or(false))
+                            }
+                            Err(_) => {}
+                        }
+                        match r {
+                            Ok(_) => "ok",
+                            Err(e) => classify(&e),
+                        }
+                    }
+                    _ => match Actor::spawn(n.map(nm), ta, ()).await {
+                        Ok(_) => "ok",
+                        Err(e) => classify(&e),
+                    },
+                };
                 quiesce().await;
                 let cell = slot.lock().unwrap().clone();
-                let ans = match r {
-                    Ok(_) => "ok",
-                    Err(ractor::SpawnErr::ActorAlreadyRegistered(_)) => "dup",
-                    Err(ractor::SpawnErr::StartupFailed(_)) => "fail",
-                    Err(_) => "err",
-                };
                 st.bump(&format!("spawn_{ans}"));
+                st.bump(&format!("flavour_{flavour}"));
                 if let Some(cell) = cell {
-                    w.recs.insert(k, Rec { cell, name: n, remote: false, hold, gate });
+                    w.recs.insert(k, Rec { cell, name: n, remote: false, hold, gate, tl });
                 }
                 ans.into()
             }
@@ -261,6 +396,11 @@ async fn exec(w: &mut World, log: &mut Log, st: &mut Stats, line: &str) {
                 }
                 quiesce().await;
                 quiesce().await;
+                if r.tl.is_some() {
+                    let c = r.cell.clone();
+                    settle(move || c.get_status() == ActorStatus::Stopped);
+                    quiesce().await; // let listeners on this runtime handle what the other thread sent
+                }
                 st.bump(&format!("exit_{how}"));
                 "ok".into()
             }
@@ -271,8 +411,14 @@ async fn exec(w: &mut World, log: &mut Log, st: &mut Stats, line: &str) {
                 if r.cell.get_status() < ActorStatus::Stopping {
                     r.hold.store(true, Ordering::SeqCst);
                 }
+                let was_live = r.cell.get_status() < ActorStatus::Stopping;
                 r.cell.stop(None);
                 quiesce().await;
+                if let (Some(flag), true) = (&r.tl, was_live) {
+                    let f = flag.clone();
+                    settle(move || f.load(Ordering::SeqCst));
+                    quiesce().await;
+                }
                 st.bump("exitbegin");
                 "ok".into()
             }
@@ -283,6 +429,11 @@ async fn exec(w: &mut World, log: &mut Log, st: &mut Stats, line: &str) {
                 r.hold.store(false, Ordering::SeqCst);
                 r.gate.notify_one();
                 quiesce().await;
+                if r.tl.is_some() && r.cell.get_status() >= ActorStatus::Stopping {
+                    let c = r.cell.clone();
+                    settle(move || c.get_status() == ActorStatus::Stopped);
+                    quiesce().await;
+                }
                 st.bump("exitend");
                 "ok".into()
             }
@@ -391,7 +542,7 @@ async fn spawn_proxy(w: &mut World, st: &mut Stats, k: u64, n: Option<u64>) -> S
     match r {
         Ok((a, _)) => {
             st.bump(if n.is_some() { "proxy_named" } else { "proxy_unnamed" });
-            w.recs.insert(k, Rec { cell: a.get_cell(), name: n, remote: true, hold, gate });
+            w.recs.insert(k, Rec { cell: a.get_cell(), name: n, remote: true, hold, gate, tl: None });
             "ok".into()
         }
         Err(_) => "err".into(),
@@ -454,12 +605,13 @@ async fn gen_case(w: &mut World, log: &mut Log, st: &mut Stats, rng: &mut Rng, c
             .collect();
         let n = rng.below(n_names);
         let c = rng.below(100);
+        let flavour = *rng.pick(&["plain", "plain", "plain", "instant", "linked", "tl", "tl", "tlinstant"]);
         let line = if c < 26 {
             next += 1;
-            format!("spawn {} {n} ok", next - 1)
+            format!("spawn {} {n} ok {flavour}", next - 1)
         } else if c < 34 {
             next += 1;
-            format!("spawn {} {n} fail", next - 1)
+            format!("spawn {} {n} fail {flavour}", next - 1)
         } else if c < 38 {
             next += 1;
             format!("spawn {} - ok", next - 1)
@@ -508,8 +660,8 @@ async fn replay_file(w: &mut World, log: &mut Log, st: &mut Stats, path: &str, c
         if line.starts_with("thrcase ") {
             in_thr = true;
             started = true;
-            let seed: u64 = line.split_whitespace().nth(1).and_then(|s| s.parse().ok()).unwrap_or(1);
-            thr::run_case(log, st, seed);
+            let tag = line.split_whitespace().nth(1).unwrap_or("1").to_string();
+            thr::run_tagged(log, st, &tag);
             continue;
         }
         if line.starts_with("case") {
@@ -571,6 +723,10 @@ pub fn main_with(cluster: bool) {
             thr::race_round(&mut log, &mut st, i, 4);
         }
     }
+    if !only_replay && mode == "thrx" {
+        // exhaustive: every interleaving of the fixed small programs (cases = cap per scenario)
+        thr::exhaustive(&mut log, &mut st, cases);
+    }
     st.add("lines", log.lines);
     st.write_json(&std::path::Path::new(&out).join("stats.json"));
     log.finish();
@@ -601,11 +757,10 @@ mod thr {
         Lookup { found: Option<(ractor::ActorId, u64)> },
     }
 
-    #[derive(Default)]
     struct Shared {
         ctx: Mutex<HashMap<usize, Act>>,
         events: Mutex<Vec<Ev>>,
-        cells: Mutex<HashMap<u64, ActorCell>>, // k -> cell of actors this harness spawned
+        done: std::sync::Barrier,
     }
 
     fn thread_body(tid: usize, prog: Vec<Act>, sh: Arc<Shared>, ctl: Arc<ThreadCtl>) {
@@ -658,9 +813,12 @@ mod thr {
                 }
             }
         });
-        drop(rt);
+        // the case is over for this thread; actors it still owns are torn down (unobserved) only
+        // when every thread is done, so that the tables stay put while others are still stepping
         verif::thread_unregister();
         ctl.finish();
+        sh.done.wait();
+        drop(rt);
     }
 
     /// Programs: every thread spawns under shared names, looks names up, exits its own
@@ -740,13 +898,93 @@ mod thr {
         );
     }
 
+    pub enum Sched {
+        Random { rng: Rng, sticky: u64 },
+        /// scripted prefix (index into the parked list at every branching step), then always 0
+        Script { prefix: Vec<usize>, taken: Vec<usize>, opts: Vec<usize> },
+    }
+
+    /// fixed small programs of the exhaustive sweep
+    fn scenario(i: u64) -> Option<Vec<Vec<Act>>> {
+        Some(match i {
+            // two threads race for one name (the winner is stopped when the case is over)
+            0 => vec![vec![Act::Spawn { k: 0, n: 0, fail: false }], vec![Act::Spawn { k: 1, n: 0, fail: false }]],
+            // an exit raced by lookups
+            1 => vec![vec![Act::Spawn { k: 0, n: 0, fail: false }, Act::Exit { k: 0, kill: false }],
+                      vec![Act::Lookup { n: 0 }, Act::Lookup { n: 0 }, Act::Lookup { n: 0 }]],
+            // three threads: two spawns under one name and lookups
+            2 => vec![vec![Act::Spawn { k: 0, n: 0, fail: false }], vec![Act::Spawn { k: 1, n: 0, fail: false }],
+                      vec![Act::Lookup { n: 0 }, Act::Lookup { n: 0 }]],
+            // a failing start (the lifecycle guard releases the name) raced by a spawn under that name
+            3 => vec![vec![Act::Spawn { k: 0, n: 0, fail: true }], vec![Act::Spawn { k: 1, n: 0, fail: false }]],
+            _ => return None,
+        })
+    }
+
+    /// `thrcase <seed>` (random) or `thrcase x:<scenario>:<choices>` (scripted schedule)
+    pub fn run_tagged(log: &mut Log, st: &mut Stats, tag: &str) {
+        if let Some(rest) = tag.strip_prefix("x:") {
+            let mut it = rest.split(':');
+            let scn: u64 = it.next().and_then(|x| x.parse().ok()).unwrap_or(0);
+            let prefix: Vec<usize> = it.next().unwrap_or("").chars().filter_map(|c| c.to_digit(10).map(|d| d as usize)).collect();
+            if let Some(progs) = scenario(scn) {
+                let mut sched = Sched::Script { prefix, taken: vec![], opts: vec![] };
+                run_progs(log, st, tag.to_string(), progs, &mut sched);
+            }
+        } else {
+            run_case(log, st, tag.parse().unwrap_or(1));
+        }
+    }
+
+    /// every schedule of every fixed scenario (stateless DFS), at most `max_runs` per scenario
+    pub fn exhaustive(log: &mut Log, st: &mut Stats, max_runs: u64) {
+        let mut scn = 0;
+        while scenario(scn).is_some() {
+            let mut stack: Vec<Vec<usize>> = vec![vec![]];
+            let mut runs = 0u64;
+            while let Some(prefix) = stack.pop() {
+                if runs >= max_runs {
+                    st.bump("thrx_truncated");
+                    break;
+                }
+                let plen = prefix.len();
+                let tag = format!("x:{scn}:{}", prefix.iter().map(|c| c.to_string()).collect::<String>());
+                let mut sched = Sched::Script { prefix, taken: vec![], opts: vec![] };
+                run_progs(log, st, tag, scenario(scn).unwrap(), &mut sched);
+                runs += 1;
+                if let Sched::Script { taken, opts, .. } = sched {
+                    for i in (plen..taken.len()).rev() {
+                        for alt in 1..opts[i] {
+                            let mut p = taken[..i].to_vec();
+                            p.push(alt);
+                            stack.push(p);
+                        }
+                    }
+                }
+            }
+            st.add(&format!("thrx_schedules_scn{scn}"), runs);
+            scn += 1;
+        }
+    }
+
     pub fn run_case(log: &mut Log, st: &mut Stats, seed: u64) {
         let mut rng = Rng::new(seed);
         let progs = gen_programs(&mut rng);
         let sticky = rng.below(4); // 0: uniform; else: keep running the same thread with prob.
-        let sh = Arc::new(Shared::default());
-        let mut w = World::default();
-        log.rec(format!("thrcase {seed} pid=0"), format!("ok | {}", w.view()));
+        let mut sched = Sched::Random { rng, sticky };
+        run_progs(log, st, seed.to_string(), progs, &mut sched);
+    }
+
+    fn run_progs(log: &mut Log, st: &mut Stats, seed: String, progs: Vec<Vec<Act>>, sched: &mut Sched) {
+        let sh = Arc::new(Shared {
+            ctx: Mutex::new(HashMap::new()),
+            events: Mutex::new(Vec::new()),
+            done: std::sync::Barrier::new(progs.len() + 1), // the threads and the controller
+        });
+        // in the cluster build the pid table is compared too
+        let cluster = cfg!(feature = "cluster");
+        let mut w = World { cluster, ..World::default() };
+        log.rec(format!("thrcase {seed} pid={}", cluster as u8), format!("ok | {}", w.view()));
         st.bump("thr_cases");
         let mut ctls = Vec::new();
         let mut handles = Vec::new();
@@ -790,11 +1028,23 @@ mod thr {
             if parked.is_empty() {
                 break;
             }
-            let pick = match last {
-                Some(l) if sticky > 0 && parked.iter().any(|(t, _)| *t == l) && rng.chance(sticky, 4) => {
-                    parked.iter().position(|(t, _)| *t == l).unwrap()
+            let pick = match sched {
+                Sched::Random { rng, sticky } => match last {
+                    Some(l) if *sticky > 0 && parked.iter().any(|(t, _)| *t == l) && rng.chance(*sticky, 4) => {
+                        parked.iter().position(|(t, _)| *t == l).unwrap()
+                    }
+                    _ => rng.below(parked.len() as u64) as usize,
+                },
+                Sched::Script { prefix, taken, opts } => {
+                    if parked.len() > 1 {
+                        let c = prefix.get(taken.len()).copied().unwrap_or(0).min(parked.len() - 1);
+                        taken.push(c);
+                        opts.push(parked.len());
+                        c
+                    } else {
+                        0
+                    }
                 }
-                _ => rng.below(parked.len() as u64) as usize,
             };
             let (tid, point) = parked[pick];
             last = Some(tid);
@@ -819,6 +1069,7 @@ mod thr {
                                 remote: false,
                                 hold: Arc::new(AtomicBool::new(false)),
                                 gate: Arc::new(tokio::sync::Notify::new()),
+                                tl: None,
                             };
                             w.recs.insert(k, rec);
                             "ok"
@@ -870,6 +1121,8 @@ mod thr {
                 }
             }
         }
+        // everything is logged: now the threads may tear their runtimes down
+        sh.done.wait();
         for h in handles {
             let _ = h.join();
         }
